@@ -192,16 +192,17 @@ class WorkflowState(object):
         if not ctxs:
             ctxs = [0]
 
+        # Make copies so the staged entry never shares containers with a task state entry.
         entry = {
             "id": task_id,
-            "ctxs": {"in": ctxs},
+            "ctxs": {"in": json_util.deepcopy(ctxs)},
             "route": route,
-            "prev": prev if isinstance(prev, dict) else {},
+            "prev": json_util.deepcopy(prev) if isinstance(prev, dict) else {},
             "ready": ready,
         }
 
         if retry:
-            entry["retry"] = retry
+            entry["retry"] = json_util.deepcopy(retry)
 
         self.staged.append(entry)
 
@@ -815,11 +816,14 @@ class WorkflowConductor(object):
         if not in_ctx_idxs:
             in_ctx_idxs = [0]
 
+        # Make copies so the task state entry never shares containers with the staged entry.
+        # Otherwise a later change to the staged entry (i.e. another inbound task transition)
+        # rewrites the record of an execution that has already started.
         task_state_entry = {
             "id": task_id,
             "route": route,
-            "ctxs": {"in": in_ctx_idxs},
-            "prev": prev or {},
+            "ctxs": {"in": json_util.deepcopy(in_ctx_idxs)},
+            "prev": json_util.deepcopy(prev) if prev else {},
             "next": {},
         }
 
